@@ -310,6 +310,14 @@ def judge(case, r, known):
         if isinstance(v, dict) and 'rejected' in v:
             fid = CG.c11_reject_finding(stext, v['rejected'])
         add('DESCRIBE SCHEMA AS SDL text loaded by START MIGRATION TO', None, v, fid)
+    if 'sdl_populate' in r:
+        v = r['sdl_populate']
+        e = v['rejected']
+        fid = None
+        if e['type'] == 'InvalidReferenceError' and "property 'id' does not exist" in e['msg'] \
+                and 'access policy' in sdl_in and ':= (' in sdl_in:
+            fid = 'C02-create-order-policy-computed'
+        add('DESCRIBE SCHEMA AS SDL text via START MIGRATION TO / POPULATE MIGRATION (the system cannot compute the migration)', None, v, fid)
     for i, v in enumerate(r.get('sdl_replay', [])):
         if v == 'eq':
             continue
@@ -594,7 +602,7 @@ def replay(path):
     for k in ('ddl_replay', 'sdl_replay'):
         for ses, v in zip(c['sessions'], r.get(k, [])):
             print(f'{k} session={json.dumps(ses)}: {brief(v)}')
-    for k in ('ddl_commit', 'sdl_target', 'sdl_commit'):
+    for k in ('ddl_commit', 'sdl_target', 'sdl_populate', 'sdl_commit'):
         if k in r:
             print(f'{k}: {brief(r[k])}')
     return 0
